@@ -4,7 +4,10 @@ executable is the Lean *checker* (`Lockset.violations`) compiled and run on the 
 extracted from the working tree (`Generated/C36.lean`).  Output, one item per line:
 
   rows <n>                      size of the table
+  groups <n>                    number of locations
+  keys <true|false>             no location has two groups
   nodup <true|false>            every lockset duplicate-free
+  flat-agrees <true|false>      group-by-group and flat evaluation give the same set
   viol <field> <roleA> <roleB>  a (location, role pair) with two conflicting rows and no common lock
 
 `props/C36.py` compares this list with its own computation and with the list the kernel has
@@ -18,9 +21,16 @@ open EphVerif EphVerif.Lockset
 def nameOf (names : List String) (i : Nat) : String := names.getD i s!"#{i}"
 
 def main (_args : List String) : IO UInt32 := do
-  let table := toRows Gen.C36.tableRaw
+  let groups := Gen.C36.groups
+  let table := flattenG groups
   IO.println s!"rows {table.length}"
+  IO.println s!"groups {groups.length}"
+  IO.println s!"keys {keysNodup groups}"
   IO.println s!"nodup {locksNodup table}"
-  for v in violations Gen.C36.multi table do
+  let vg := violationsG Gen.C36.multi groups
+  let vf := violations Gen.C36.multi table
+  -- compiled cross-check of the two evaluators (their equivalence is `mem_violationsG`)
+  IO.println s!"flat-agrees {vg.all (vf.contains ·) && vf.all (vg.contains ·)}"
+  for v in vg do
     IO.println s!"viol {nameOf Gen.C36.fieldNames v.1} {nameOf Gen.C36.roleNames v.2.1} {nameOf Gen.C36.roleNames v.2.2}"
   return 0
